@@ -1,7 +1,9 @@
 package main
 
 import (
+	"fmt"
 	"math"
+	"os"
 	"strconv"
 	"strings"
 
@@ -406,6 +408,9 @@ func buildObject(r *Recipe, st *buildStats) (obj geojson.Object) {
 	o, err := geojson.Parse(styleJSON(sb.String(), r.Style), r.Opts.toLib())
 	if err != nil || o == nil {
 		st.errors++
+		if debugSolo {
+			fmt.Fprintf(os.Stderr, "build: parse error %v style=%d kind=%s rv=%v text=%.300s\n", err, r.Style, r.Kind, r.Opts.RequireValid, styleJSON(sb.String(), r.Style))
+		}
 		return geojson.NewPoint(geometry.Point{X: 1, Y: 1})
 	}
 	return o
